@@ -26,6 +26,9 @@ def to_pandas(frame):
                 data[c["name"]] = pd.array([np.nan if x is None else float(x) for x in v], dtype="float64")
             else:
                 data[c["name"]] = np.array(v, dtype="int64")
+        elif t == "nint":
+            # pandas' nullable integer dtype: missing cells are pd.NA
+            data[c["name"]] = pd.array([None if x is None else int(x) for x in v], dtype="Int64")
         elif t == "float":
             data[c["name"]] = np.array([np.nan if x is None else float(Fraction(x)) for x in v], dtype="float64")
         elif t == "str":
@@ -53,8 +56,8 @@ def frame_sexp(frame):
     out = []
     for c in frame["columns"]:
         t = c["type"]
-        if t in ("int", "float"):
-            isint = "int" if (t == "int" and not any(x is None for x in c["values"])) else "float"
+        if t in ("int", "float", "nint"):
+            isint = "int" if (t in ("int", "nint") and not any(x is None for x in c["values"])) else "float"
             out.append([c["name"], ["num", isint, [_cell(x) for x in c["values"]]]])
         else:
             cats = list(c["categories"]) if t == "ordcat" else []
